@@ -9,7 +9,7 @@
    code (after 1e7055a5f and 77807d108). *)
 From Coq Require Import Sorted.
 From GixV.Base Require Import Bytes Outcome.
-From GixV.C04 Require Import Model Spec ProofsCmp ProofsSort ProofsSearch ProofsLevel ProofsInv ProofsForget ProofsExamples.
+From GixV.C04 Require Import Model Spec ProofsCmp ProofsSort ProofsSearch ProofsLevel ProofsInv ProofsForget ProofsTidy ProofsExamples.
 
 (* one level of a path: the two binary searches find an entry of that name if and only if there is
    one (whatever its kind), else the insertion point that keeps git's order *)
@@ -58,6 +58,29 @@ Theorem forgetting_a_directory_drops_exactly_its_subtrees : forall m base name m
     (forall k, k <> p -> starts_with (p ++ [slash]) k = false -> tm_get k m' = tm_get k m).
 Proof. exact forget_spec. Qed.
 
+(* "the keys of `trees` are exactly the loaded prefixes" — NO STALE SUBTREE, for all histories: after any
+   history of editor and cursor edits, cursor_at, Editor::write, set_root (everything but Cursor::write) on a
+   new editor, every tree held in memory other than the root sits at a path k/n whose parent k is held in
+   memory too and has a DIRECTORY entry named n; and the root tree is always present.  This is the invariant
+   the code violated before fix 1e7055a5f (see [stale_state_is_excluded]). *)
+Theorem no_stale_subtrees : forall ops st',
+  Forall eop_ok ops -> Forall eop_no_cursor_write ops ->
+  erun (init_state [] [] 0) ops = Ok st' -> Tidy (trees st').
+Proof.
+  intros ops st' Hok Hnc Hrun. exact (erun_tidy ops _ _ sinv_init tidy_init Hok Hnc Hrun).
+Qed.
+
+(* one step of it, from any state and any cursor prefix *)
+Theorem edit_leaves_no_stale_subtree : forall st comps ki st' r,
+  SInv st -> Tidy (trees st) -> Forall slash_free comps -> ki_ok ki -> ki_tidy ki ->
+  upsert_or_remove_at_pathbuf st comps ki = Ok (st', r) -> Tidy (trees st').
+Proof. exact upsert_or_remove_tidy. Qed.
+
+(* Editor::write keeps nothing in memory but the root tree it wrote *)
+Theorem editor_write_keeps_only_the_root : forall fuel pb w id m o n,
+  write_loop fuel WNormal pb w = Ok (id, m, o, n) -> exists t, m = [(pb, t)].
+Proof. exact write_loop_normal_shape. Qed.
+
 (* the part of the property that is NOT proved (tested by the correspondence run and the oracle only):
    writing equals building the resulting set of paths from scratch.  [denote] would map an editor state to
    the nested directory it stands for; see NOTES.md. *)
@@ -71,6 +94,11 @@ Example hypotheses_satisfiable_1 : Forall eop_ok witness_stale.
 Proof. exact witness_stale_ok. Qed.
 Example hypotheses_satisfiable_2 : Forall eop_ok witness_cursor.
 Proof. exact witness_cursor_ok. Qed.
+Example hypotheses_satisfiable_3 : Forall eop_no_cursor_write witness_stale.
+Proof. repeat constructor. Qed.
+(* the in-memory state defect 1 produced (a tree under "a", no directory `a` in the root) is not Tidy *)
+Example stale_state_is_excluded : ~ Tidy [([], []); ([x61], [])].
+Proof. exact stale_state_not_tidy. Qed.
 Example stale_subtree_does_not_come_back :
   omap odb (erun (init_state [] [] 0) witness_stale) =
   Ok [[mkEntry BLOB (bs "c") B3]; [mkEntry MODE_TREE (bs "a") (id_of_index 0)]].
